@@ -856,3 +856,12 @@ mod get_token_extension_types_test {
         assert_eq!(result.unwrap_err(), ProgramError::InvalidAccountData.into());
     }
 }
+
+// verification hook (feature `verif` only): extension type numbers found by the TLV scan
+#[cfg(feature = "verif")]
+pub fn verif_get_token_extension_types(tlv_data: &[u8]) -> Result<Vec<u16>> {
+    Ok(get_token_extension_types(tlv_data)?
+        .into_iter()
+        .map(|t| t.into())
+        .collect())
+}
